@@ -34,7 +34,8 @@ contract("nucs/solvers/bound_consistency_algorithm.py::bound_consistency_algorit
     ghost={"sigma": "int[D]"}, defs=[V_DEF, SOL_DEF], call_ghosts={"compute_domains_fct": {"pidx": "prop_idx", "tvec": "tv(prop_idx)"}},
     modifies=["statistics", "shr_domains_stack", "not_entailed_propagators_stack", "triggered_propagators"],
     loops={1: dict(fingerprint="while True", invariant=OUTER),
-           2: dict(index="v", fingerprint="for range(prop_var_end - prop_var_start)", invariant=INNER)},
+           2: dict(index="v", fingerprint="for range(prop_var_end - prop_var_start)", invariant=INNER),
+           3: dict(index="w", fingerprint="for range(prop_var_end - prop_var_start)", invariant=[("C16.prop_idx", "-1 <= prop_idx and prop_idx < P")])},
     ensures=CA_FRAME + [CA_SHRINK, CA_STATUS, CA_BOUND, CA_UNBOUND, CA_PRESERVE,
         ("C17.bc", f"{dstat(BC)} == 1"),
         ("C17.filter", f"{dstat(F)} == calls"),
